@@ -27,7 +27,8 @@ ActMsgs == { PauseAction(s, a) : s \in Signers, a \in {"FEE", "SWAP"} } \cup { U
             \cup { PauseAction("AUTH", a) : a \in {"UNSUPPORTED", "AUNKNOWN", "EMPTY", "N1"} }
 ParamVals == IF PauseSet = "full" THEN {0, 2, 64, -1} ELSE {0, 2}
 ParamMsgs == { UpdateParams("AUTH", v) : v \in ParamVals } \cup { UpdateParams("M", 7) }
-OtherSigners == { PauseProtocol(s, "CCTP") : s \in {"AUTH_UPPER", "AUTH_SPACE", "EMPTY", "MALFORMED", "ORB", "DUST", "OTHER_HRP"} }
+OtherSigners == { PauseProtocol(s, "CCTP") : s \in {"AUTH_UPPER", "AUTH_SPACE", "EMPTY", "MALFORMED", "ORB", "DUST", "OTHER_HRP", "AUTH_MODNAME"} }
+                 \cup { PauseAction("AUTH_MODNAME", "FEE"), UpdateParams("AUTH_MODNAME", 9), PauseCC("AUTH_MODNAME", "HYP", <<Cp1>>) }
                  \cup { UpdateParams(s, 9) : s \in {"AUTH_UPPER", "EMPTY", "ORB"} }
                  \cup { [AdminIn("ReplaceDepositForBurn", s) EXCEPT !.fw = FwCCTP(0, "MINT_B", "CALLER_B"), !.who = "x"] : s \in {"AUTH", "M"} }
 
